@@ -364,6 +364,8 @@ pub struct SymBus<const P: usize, const ILEN: usize> {
     pub max_attempts: u8,
     /// unrelated replies: false = Hello only, true = Hello, DataChunksSent, SendData
     pub rich: bool,
+    /// receive requests actually seen on the bus (independent of the reference controller's view)
+    pub requests_seen: u8,
     /// invariants (C11)
     pub dead: bool,
     pub sent_after_dead: bool,
@@ -382,6 +384,7 @@ impl<const P: usize, const ILEN: usize> SymBus<P, ILEN> {
             max_polls,
             max_attempts: 3,
             rich: true,
+            requests_seen: 0,
             dead: false,
             sent_after_dead: false,
             foreign_address_sent: false,
@@ -484,6 +487,15 @@ impl<const P: usize, const ILEN: usize> SignBus for SymBus<P, ILEN> {
         } {
             if a.0 != self.ctl.own {
                 self.foreign_address_sent = true;
+            }
+        }
+        if let Message::RequestOperation(_, op) = m {
+            if matches!(op, Operation::ReceiveConfig | Operation::ReceivePixels) {
+                self.requests_seen = self.requests_seen.saturating_add(1);
+                if self.requests_seen > self.max_attempts {
+                    // conversations with more transfer attempts than this harness explores
+                    kani::assume(false);
+                }
             }
         }
         let e = self.ctl.expected();
